@@ -130,8 +130,35 @@ func c01Expressions(thorough bool) []c01Expr {
 		add("["+x+", "+x+"]", "ms-dup")
 		add("{k: "+x+", k: `1`}", "mh-dup-key")
 	}
+	// comparisons of values that are close together, spelled differently or of different types: fields of the
+	// comparison documents against each other and against literals
+	for _, op := range []string{"==", "!=", "<", "<=", ">", ">="} {
+		for _, x := range c01CompareFields {
+			for _, y := range c01CompareFields {
+				add(x+" "+op+" "+y, "compare "+op)
+			}
+			for _, lit := range c01CompareLiterals {
+				add(x+" "+op+" `"+lit+"`", "compare-literal "+op)
+				add("`"+lit+"` "+op+" "+x, "compare-literal "+op)
+			}
+			add("all[?@ "+op+" $."+x+"]", "compare-filter "+op)
+		}
+		for _, l1 := range c01CompareLiterals {
+			for _, l2 := range c01CompareLiterals {
+				add("`"+l1+"` "+op+" `"+l2+"`", "compare-literals "+op)
+			}
+		}
+	}
 	return out
 }
+
+// the comparison family: numbers one unit apart beyond 2^53 and 2^60, the same value in several spellings, a fraction that
+// differs from its neighbour in the 20th digit, and one value of every other type
+var c01CompareFields = []string{"p", "q", "r", "s", "t", "u", "v", "w", "str", "nul", "arr", "obj"}
+var c01CompareLiterals = []string{"9007199254740992", "9007199254740993", "1152921504606846976", "1152921504606846977", "1", "1.0", "0.1", "0.10000000000000000001", "\"1\"", "null", "[1]", "[1.0]", "{\"a\":1152921504606846977}"}
+
+const c01CompareDoc = `{"p":9007199254740992,"q":9007199254740993,"r":1152921504606846976,"s":1152921504606846977,"t":1,"u":1.0,"v":0.1,"w":0.10000000000000000001,"str":"1","nul":null,"arr":[1152921504606846977],"obj":{"a":1152921504606846976},` +
+	`"all":[9007199254740992,9007199254740993,1152921504606846976,1152921504606846977,1,1.0,1e0,0.1,0.10000000000000000001,"1",null,[1152921504606846977],{"a":1152921504606846976}]}`
 
 func c01Docs(thorough bool) []doc {
 	atoms := []string{"null", "1", `"s"`}
@@ -197,6 +224,7 @@ func c01Run(r *core.Run) {
 		return "[" + strings.Join(parts, ",") + "]"
 	}
 	bigDocs := []doc{mkDoc(`{"big":` + seq(300) + `,"wide":[` + seq(300) + `,` + seq(130) + `]}`), mkDoc(seq(300)), mkDoc(`{"big":` + seq(256) + `,"wide":[` + seq(129) + `]}`), mkDoc(seq(128)), mkDoc(`{"big":[1],"wide":[[1]]}`)}
+	compareDocs := []doc{mkDoc(c01CompareDoc)}
 	before := make([]string, len(docs))
 	for i, d := range docs {
 		before[i] = core.Canon(core.Norm(d.Raw))
@@ -214,6 +242,9 @@ func c01Run(r *core.Run) {
 		}
 		if strings.HasPrefix(e.Shape, "index-boundary ") {
 			ds = bigDocs
+		}
+		if strings.HasPrefix(e.Shape, "compare") {
+			ds = compareDocs
 		}
 		c01One(r, e.Text, e.Shape, ds)
 	}
